@@ -403,6 +403,9 @@ package anthropic
 //@   safety
 //@   requires r != nil
 //@   ensures res == nil ==> r.Model != "" && len(r.Messages) > 0 && r.MaxTokens >= 1
+// exactly the stated ranges: temperature not outside [0,2], top_p not outside [0,1], top_k >= 0 (when given; written
+// as the negation of "outside" so that it also says what the code does for a NaN, which JSON cannot deliver)
+//@   ensures res == nil <==> (r.Model != "" && len(r.Messages) > 0 && r.MaxTokens >= 1 && (r.Temperature == nil || !(deref(r.Temperature) < 0.0 || deref(r.Temperature) > 2.0)) && (r.TopP == nil || !(deref(r.TopP) < 0.0 || deref(r.TopP) > 1.0)) && (r.TopK == nil || deref(r.TopK) >= 0))
 
 // the whole request: the scalar parameters are carried over, the messages and tools are the converted ones, and a
 // request that fails decoding or validation produces an error and no upstream request
